@@ -44,6 +44,51 @@ pub(crate) fn k1(_n: &U192) -> u8 {
 pub(crate) fn k2(_n: &U192) -> u8 {
     2
 }
+pub(crate) fn k3(_n: &U192) -> u8 {
+    3
+}
+pub(crate) fn k4(_n: &U192) -> u8 {
+    4
+}
+pub(crate) fn k5(_n: &U192) -> u8 {
+    5
+}
+pub(crate) fn k6(_n: &U192) -> u8 {
+    6
+}
+pub(crate) fn k7(_n: &U192) -> u8 {
+    7
+}
+pub(crate) fn k8(_n: &U192) -> u8 {
+    8
+}
+pub(crate) fn k9(_n: &U192) -> u8 {
+    9
+}
+pub(crate) fn k10(_n: &U192) -> u8 {
+    10
+}
+pub(crate) fn k11(_n: &U192) -> u8 {
+    11
+}
+pub(crate) fn k12(_n: &U192) -> u8 {
+    12
+}
+pub(crate) fn k13(_n: &U192) -> u8 {
+    13
+}
+pub(crate) fn k14(_n: &U192) -> u8 {
+    14
+}
+pub(crate) fn k15(_n: &U192) -> u8 {
+    15
+}
+pub(crate) fn k16(_n: &U192) -> u8 {
+    16
+}
+pub(crate) fn k17(_n: &U192) -> u8 {
+    17
+}
 pub(crate) fn k18(_n: &U192) -> u8 {
     18
 }
@@ -159,10 +204,14 @@ fn is_quotient(q: u128, x: W, k: u32) -> bool {
 
 /// One call of the real conversion with divisor exponent `k` (the caller stubs
 /// `find_divisor_decimals` to the same constant).
-pub(crate) fn convert(k: u32, shape: [L; 3]) {
+/// One call of the real conversion with divisor exponent `k <= 18` (the caller stubs
+/// `find_divisor_decimals` to the same constant and the ruint limb division to its specification).
+/// `track`: false = report without last-update timestamp; true = any optional u64 timestamp (its age
+/// is checked for zero-ness here and exactly in [`last_update_age_window`]).
+pub(crate) fn convert(k: u32, shape: [L; 3], track: bool) {
     let (sp, sb, sa): (bool, bool, bool) = (kani::any(), kani::any(), kani::any());
     let obs: u32 = kani::any();
-    let lut: Option<u64> = if kani::any() { Some(kani::any()) } else { None };
+    let lut: Option<u64> = if track && kani::any() { Some(kani::any()) } else { None };
     let ext = any_ext();
     let ((p, pu), (b, bu), (a, au)) = (any_value(shape), any_value(shape), any_value(shape));
     // the interval on which the real find_divisor_decimals(ask) returns k
@@ -175,10 +224,10 @@ pub(crate) fn convert(k: u32, shape: [L; 3]) {
     let report = Report::verif_new(obs, lut, (sp, pu), (sb, bu), (sa, au), ext);
     let obs_ns = obs as u128 * 1_000_000_000;
     let late = matches!(lut, Some(l) if l as u128 >= obs_ns + 1_000_000_000);
+    let mut w_age = !track;
     match PriceFeedPrice::from_chainlink_report(&report) {
         Ok(fp) => {
             assert!(sp && sb && sa, "C28: negative bid/price/ask accepted");
-            assert!(k <= 18, "C28: unrepresentable ask accepted");
             assert!(b.le(p) && p.le(a), "C28: misordered bid/price/ask accepted");
             assert!(!late, "C28: last update later than the observation by >= 1s accepted");
             assert!(fp.min_price() <= fp.price() && fp.price() <= fp.max_price(), "C28: bid <= price <= ask not preserved");
@@ -203,38 +252,396 @@ pub(crate) fn convert(k: u32, shape: [L; 3]) {
                 }
                 Some(l) => {
                     let diff_ns = if obs_ns >= l as u128 { obs_ns - l as u128 } else { 0 };
-                    let diff_s = (diff_ns + 999_999_999) / 1_000_000_000;
                     // obs < 2^32 s, so the age is below 2^32 s: always representable, always open
                     assert!(img[1] == 0b111, "C28: flags with last-update tracking must be {Open, Enabled, Secs}");
-                    assert!(fp.last_update_diff_secs() == Some(diff_s as u32), "C28: last-update age mis-rounded");
-                    kani::cover!(diff_s > 0, "tracked last update with a positive age");
+                    match fp.last_update_diff_secs() {
+                        Some(secs) => {
+                            assert!((secs == 0) == (diff_ns == 0), "C28: last-update age zero-ness wrong");
+                            w_age = secs > 0;
+                        }
+                        None => assert!(false, "C28: tracked last update lost"),
+                    }
                 }
             }
+            kani::cover!(w_age, "tracked last update with a positive age");
             kani::cover!(b.lt(p) && p.lt(a), "report accepted with bid < price < ask");
+            kani::cover!(b.le(p) && p.le(a) && !b.lt(a), "report accepted with bid = price = ask");
         }
         Err(_) => {
-            // k > 18: the ask exceeds u128::MAX * 10^18, i.e. it has no u128 representation with >= 0 decimals
-            assert!(!(sp && sb && sa) || !(b.le(p) && p.le(a)) || late || k > 18, "C28: well-formed report rejected");
+            assert!(!(sp && sb && sa) || !(b.le(p) && p.le(a)) || late, "C28: well-formed report rejected");
             kani::cover!(sp && sb && sa && a.lt(p), "ask < price rejected");
             kani::cover!(sp && sb && sa && p.lt(b), "price < bid rejected");
             kani::cover!(!sb, "negative bid rejected");
-            kani::cover!(late, "late last-update rejected");
+            kani::cover!(!track || late, "late last-update rejected");
         }
     }
 }
 
+/// `k = 19`: the ask exceeds `u128::MAX * 10^18`, i.e. it has no u128 representation with a
+/// non-negative number of decimals: every report must be rejected (never a panic, never a wrong price).
+pub(crate) fn convert_unrepresentable(shape: [L; 3]) {
+    let (sp, sb, sa): (bool, bool, bool) = (kani::any(), kani::any(), kani::any());
+    let obs: u32 = kani::any();
+    let ext = any_ext();
+    let ((p, pu), (b, bu), (a, au)) = (any_value(shape), any_value(shape), any_value(shape));
+    kani::assume(bound(18).lt(a) && a.le(bound(19)));
+    let report = Report::verif_new(obs, None, (sp, pu), (sb, bu), (sa, au), ext);
+    let r = PriceFeedPrice::from_chainlink_report(&report);
+    assert!(r.is_err(), "C28: a report whose ask has no u128 representation was accepted");
+    kani::cover!(sp && sb && sa && b.le(p) && p.le(a), "otherwise well-formed report");
+    std::mem::forget(r);
+}
+
+/// Exact age of the last update for a concrete number of seconds `s` and EVERY nanosecond offset of
+/// that second: `last = obs_ns - delta` with `delta` in `((s-1)*1e9, s*1e9]` (s >= 1) must give age `s`
+/// (rounded up, never down); `s = 0`: `last` in `[obs_ns, obs_ns + 1e9)` (up to < 1 s ahead) gives 0.
+pub(crate) fn last_update_age_window(s: u32) {
+    const NS: u64 = 1_000_000_000;
+    let obs: u32 = kani::any();
+    let obs_ns = obs as u64 * NS;
+    let off: u64 = kani::any();
+    kani::assume(off < NS);
+    let lut = if s == 0 {
+        kani::assume(obs_ns <= u64::MAX - off);
+        obs_ns + off
+    } else {
+        let delta = s as u64 * NS - off; // in ((s-1)*1e9, s*1e9]
+        kani::assume(obs_ns >= delta);
+        obs_ns - delta
+    };
+    let v = U192::from_limbs([5, 0, 0]);
+    let report = Report::verif_new(obs, Some(lut), (true, v), (true, v), (true, v), None);
+    match PriceFeedPrice::from_chainlink_report(&report) {
+        Ok(fp) => {
+            assert!(fp.last_update_diff_secs() == Some(s), "C28: last-update age mis-rounded");
+            let img: [u8; 64] = bytemuck::cast(fp);
+            assert!(img[1] == 0b111, "C28: flags with last-update tracking must be {Open, Enabled, Secs}");
+        }
+        Err(_) => assert!(false, "C28: well-formed report rejected"),
+    }
+    kani::cover!(off == 0, "whole second");
+    kani::cover!(off == NS - 1, "one nanosecond into the second");
+}
+
+const TWO: [L; 3] = [L::S(64), L::S(64), L::C(0)];
+const THREE: [L; 3] = [L::S(64), L::S(64), L::S(64)];
+
+//@ prop=C28 tier=quick kind=hold
+//@ enc=<PriceFeedPrice as FromChainlinkReport>::from_chainlink_report, Report::{non_negative_price,non_negative_bid,non_negative_ask,last_update_timestamp,extended_market_status}, canonical_market_status, PriceFeedPrice::{new,set_flag,set_market_status}, ruint U192 cmp / pow / TryFrom<U192> for u128
+//@ bound=divisor exponent 0: bid/price/ask any values below 2^128 (ask <= u128::MAX), any signs, any u32 observation timestamp, any status, no last-update timestamp; unwind 5
+//@ stubs=find_divisor_decimals replaced by the constant 0 with ask restricted to exactly the interval on which the real function returns 0 (decided by c26_find_divisor_decimals_exact); ruint::algorithms::div::div replaced by its specification (arbitrary q, r with q*d + r == n, r < d; ruint's division algorithm is trusted); Report built through the cfg(gmsol_verif) hook Report::verif_new (ABI/bigint decoding not executed)
+//@ args=--cbmc-args,--unwindset,memcmp.0:26
 #[kani::proof]
 #[kani::stub(gmsol_utils::price::find_divisor_decimals, k0)]
 #[kani::stub(ruint::algorithms::div::div, div_spec)]
 #[kani::unwind(5)]
-fn c28_p0() {
-    convert(0, [L::S(64), L::S(64), L::C(0)]);
+fn c28_convert_k00() {
+    convert(0, TWO, false);
 }
 
+//@ prop=C28 tier=quick kind=hold
+//@ enc=<PriceFeedPrice as FromChainlinkReport>::from_chainlink_report, ruint U192 cmp / pow(10, 1) / TryFrom<U192> for u128
+//@ bound=divisor exponent 1: ask any value in (u128::MAX, u128::MAX*10], bid/price any 192-bit values, any signs / timestamp / status, no last-update timestamp; all three results checked to be floor(x / 10) exactly; unwind 5
+//@ stubs=find_divisor_decimals replaced by the constant 1 on exactly its interval; ruint::algorithms::div::div replaced by its specification; Report::verif_new hook
+//@ args=--cbmc-args,--unwindset,memcmp.0:26
 #[kani::proof]
 #[kani::stub(gmsol_utils::price::find_divisor_decimals, k1)]
 #[kani::stub(ruint::algorithms::div::div, div_spec)]
 #[kani::unwind(5)]
-fn c28_p1() {
-    convert(1, [L::S(64), L::S(64), L::S(64)]);
+fn c28_convert_k01() {
+    convert(1, THREE, false);
+}
+
+//@ prop=C28 tier=quick kind=hold
+//@ enc=<PriceFeedPrice as FromChainlinkReport>::from_chainlink_report, ruint U192 cmp / pow(10, 18)
+//@ bound=divisor exponent 18 (the largest accepted: decimals 0): ask in (u128::MAX*10^17, u128::MAX*10^18], bid/price any 192-bit values; results floor(x / 10^18) exactly; unwind 5
+//@ stubs=find_divisor_decimals replaced by the constant 18 on exactly its interval; ruint::algorithms::div::div replaced by its specification; Report::verif_new hook
+//@ args=--cbmc-args,--unwindset,memcmp.0:26
+#[kani::proof]
+#[kani::stub(gmsol_utils::price::find_divisor_decimals, k18)]
+#[kani::stub(ruint::algorithms::div::div, div_spec)]
+#[kani::unwind(5)]
+fn c28_convert_k18() {
+    convert(18, THREE, false);
+}
+
+//@ prop=C28 tier=quick kind=hold
+//@ enc=<PriceFeedPrice as FromChainlinkReport>::from_chainlink_report
+//@ bound=divisor exponent 19: ask in (u128::MAX*10^18, u128::MAX*10^19], bid/price any 192-bit values, any signs: always rejected; unwind 5
+//@ stubs=find_divisor_decimals replaced by the constant 19 on exactly its interval; ruint::algorithms::div::div replaced by its specification; Report::verif_new hook
+//@ args=--cbmc-args,--unwindset,memcmp.0:26
+#[kani::proof]
+#[kani::stub(gmsol_utils::price::find_divisor_decimals, k19)]
+#[kani::stub(ruint::algorithms::div::div, div_spec)]
+#[kani::unwind(5)]
+fn c28_convert_k19_rejected() {
+    convert_unrepresentable(THREE);
+}
+
+//@ prop=C28 tier=quick kind=hold
+//@ enc=<PriceFeedPrice as FromChainlinkReport>::from_chainlink_report (last-update timestamp handling), PriceFeedPrice::last_update_diff_secs
+//@ bound=bid = price = ask = 5 (concrete), any u32 observation timestamp; last update exactly s in {0,1,2,3600} seconds old up to EVERY nanosecond offset within that second (s = 0 includes up to < 1 s ahead of the observation): age == s; unwind 5
+//@ stubs=find_divisor_decimals replaced by the constant 0 (ask = 5); ruint::algorithms::div::div replaced by its specification; Report::verif_new hook
+//@ args=--cbmc-args,--unwindset,memcmp.0:26
+#[kani::proof]
+#[kani::stub(gmsol_utils::price::find_divisor_decimals, k0)]
+#[kani::stub(ruint::algorithms::div::div, div_spec)]
+#[kani::unwind(5)]
+fn c28_last_update_age_windows() {
+    last_update_age_window(0);
+    last_update_age_window(1);
+    last_update_age_window(2);
+    last_update_age_window(3600);
+}
+
+//@ prop=C28 tier=thorough kind=hold
+//@ enc=<PriceFeedPrice as FromChainlinkReport>::from_chainlink_report incl. last-update timestamp handling
+//@ bound=divisor exponent 0, values below 2^128, any optional u64 last-update timestamp: flags, rejection of a timestamp >= 1 s ahead, age zero <=> not older than the observation (exact age: c28_last_update_age_windows); unwind 5
+//@ stubs=find_divisor_decimals constant 0 on its interval; ruint::algorithms::div::div specification; Report::verif_new hook
+//@ args=--cbmc-args,--unwindset,memcmp.0:26
+//@ timeout=1800
+#[kani::proof]
+#[kani::stub(gmsol_utils::price::find_divisor_decimals, k0)]
+#[kani::stub(ruint::algorithms::div::div, div_spec)]
+#[kani::unwind(5)]
+fn c28_convert_k00_tracked() {
+    convert(0, TWO, true);
+}
+
+//@ prop=C28 tier=thorough kind=hold
+//@ enc=<PriceFeedPrice as FromChainlinkReport>::from_chainlink_report incl. last-update timestamp handling
+//@ bound=divisor exponent 1, any 192-bit values on the interval, any optional u64 last-update timestamp; unwind 5
+//@ stubs=find_divisor_decimals constant 1 on its interval; ruint::algorithms::div::div specification; Report::verif_new hook
+//@ args=--cbmc-args,--unwindset,memcmp.0:26
+//@ timeout=1800
+#[kani::proof]
+#[kani::stub(gmsol_utils::price::find_divisor_decimals, k1)]
+#[kani::stub(ruint::algorithms::div::div, div_spec)]
+#[kani::unwind(5)]
+fn c28_convert_k01_tracked() {
+    convert(1, THREE, true);
+}
+
+//@ prop=C28 tier=thorough kind=hold
+//@ enc=<PriceFeedPrice as FromChainlinkReport>::from_chainlink_report, ruint U192 cmp / pow(10, 2)
+//@ bound=divisor exponent 2: ask in (u128::MAX*10^1, u128::MAX*10^2], bid/price any 192-bit values; results floor(x / 10^2) exactly; unwind 5
+//@ stubs=find_divisor_decimals constant 2 on its interval; ruint::algorithms::div::div specification; Report::verif_new hook
+//@ args=--cbmc-args,--unwindset,memcmp.0:26
+//@ timeout=1800
+#[kani::proof]
+#[kani::stub(gmsol_utils::price::find_divisor_decimals, k2)]
+#[kani::stub(ruint::algorithms::div::div, div_spec)]
+#[kani::unwind(5)]
+fn c28_convert_k02() {
+    convert(2, THREE, false);
+}
+
+//@ prop=C28 tier=thorough kind=hold
+//@ enc=<PriceFeedPrice as FromChainlinkReport>::from_chainlink_report, ruint U192 cmp / pow(10, 3)
+//@ bound=divisor exponent 3: ask in (u128::MAX*10^2, u128::MAX*10^3], bid/price any 192-bit values; results floor(x / 10^3) exactly; unwind 5
+//@ stubs=find_divisor_decimals constant 3 on its interval; ruint::algorithms::div::div specification; Report::verif_new hook
+//@ args=--cbmc-args,--unwindset,memcmp.0:26
+//@ timeout=1800
+#[kani::proof]
+#[kani::stub(gmsol_utils::price::find_divisor_decimals, k3)]
+#[kani::stub(ruint::algorithms::div::div, div_spec)]
+#[kani::unwind(5)]
+fn c28_convert_k03() {
+    convert(3, THREE, false);
+}
+
+//@ prop=C28 tier=thorough kind=hold
+//@ enc=<PriceFeedPrice as FromChainlinkReport>::from_chainlink_report, ruint U192 cmp / pow(10, 4)
+//@ bound=divisor exponent 4: ask in (u128::MAX*10^3, u128::MAX*10^4], bid/price any 192-bit values; results floor(x / 10^4) exactly; unwind 5
+//@ stubs=find_divisor_decimals constant 4 on its interval; ruint::algorithms::div::div specification; Report::verif_new hook
+//@ args=--cbmc-args,--unwindset,memcmp.0:26
+//@ timeout=1800
+#[kani::proof]
+#[kani::stub(gmsol_utils::price::find_divisor_decimals, k4)]
+#[kani::stub(ruint::algorithms::div::div, div_spec)]
+#[kani::unwind(5)]
+fn c28_convert_k04() {
+    convert(4, THREE, false);
+}
+
+//@ prop=C28 tier=thorough kind=hold
+//@ enc=<PriceFeedPrice as FromChainlinkReport>::from_chainlink_report, ruint U192 cmp / pow(10, 5)
+//@ bound=divisor exponent 5: ask in (u128::MAX*10^4, u128::MAX*10^5], bid/price any 192-bit values; results floor(x / 10^5) exactly; unwind 5
+//@ stubs=find_divisor_decimals constant 5 on its interval; ruint::algorithms::div::div specification; Report::verif_new hook
+//@ args=--cbmc-args,--unwindset,memcmp.0:26
+//@ timeout=1800
+#[kani::proof]
+#[kani::stub(gmsol_utils::price::find_divisor_decimals, k5)]
+#[kani::stub(ruint::algorithms::div::div, div_spec)]
+#[kani::unwind(5)]
+fn c28_convert_k05() {
+    convert(5, THREE, false);
+}
+
+//@ prop=C28 tier=thorough kind=hold
+//@ enc=<PriceFeedPrice as FromChainlinkReport>::from_chainlink_report, ruint U192 cmp / pow(10, 6)
+//@ bound=divisor exponent 6: ask in (u128::MAX*10^5, u128::MAX*10^6], bid/price any 192-bit values; results floor(x / 10^6) exactly; unwind 5
+//@ stubs=find_divisor_decimals constant 6 on its interval; ruint::algorithms::div::div specification; Report::verif_new hook
+//@ args=--cbmc-args,--unwindset,memcmp.0:26
+//@ timeout=1800
+#[kani::proof]
+#[kani::stub(gmsol_utils::price::find_divisor_decimals, k6)]
+#[kani::stub(ruint::algorithms::div::div, div_spec)]
+#[kani::unwind(5)]
+fn c28_convert_k06() {
+    convert(6, THREE, false);
+}
+
+//@ prop=C28 tier=thorough kind=hold
+//@ enc=<PriceFeedPrice as FromChainlinkReport>::from_chainlink_report, ruint U192 cmp / pow(10, 7)
+//@ bound=divisor exponent 7: ask in (u128::MAX*10^6, u128::MAX*10^7], bid/price any 192-bit values; results floor(x / 10^7) exactly; unwind 5
+//@ stubs=find_divisor_decimals constant 7 on its interval; ruint::algorithms::div::div specification; Report::verif_new hook
+//@ args=--cbmc-args,--unwindset,memcmp.0:26
+//@ timeout=1800
+#[kani::proof]
+#[kani::stub(gmsol_utils::price::find_divisor_decimals, k7)]
+#[kani::stub(ruint::algorithms::div::div, div_spec)]
+#[kani::unwind(5)]
+fn c28_convert_k07() {
+    convert(7, THREE, false);
+}
+
+//@ prop=C28 tier=thorough kind=hold
+//@ enc=<PriceFeedPrice as FromChainlinkReport>::from_chainlink_report, ruint U192 cmp / pow(10, 8)
+//@ bound=divisor exponent 8: ask in (u128::MAX*10^7, u128::MAX*10^8], bid/price any 192-bit values; results floor(x / 10^8) exactly; unwind 5
+//@ stubs=find_divisor_decimals constant 8 on its interval; ruint::algorithms::div::div specification; Report::verif_new hook
+//@ args=--cbmc-args,--unwindset,memcmp.0:26
+//@ timeout=1800
+#[kani::proof]
+#[kani::stub(gmsol_utils::price::find_divisor_decimals, k8)]
+#[kani::stub(ruint::algorithms::div::div, div_spec)]
+#[kani::unwind(5)]
+fn c28_convert_k08() {
+    convert(8, THREE, false);
+}
+
+//@ prop=C28 tier=thorough kind=hold
+//@ enc=<PriceFeedPrice as FromChainlinkReport>::from_chainlink_report, ruint U192 cmp / pow(10, 9)
+//@ bound=divisor exponent 9: ask in (u128::MAX*10^8, u128::MAX*10^9], bid/price any 192-bit values; results floor(x / 10^9) exactly; unwind 5
+//@ stubs=find_divisor_decimals constant 9 on its interval; ruint::algorithms::div::div specification; Report::verif_new hook
+//@ args=--cbmc-args,--unwindset,memcmp.0:26
+//@ timeout=1800
+#[kani::proof]
+#[kani::stub(gmsol_utils::price::find_divisor_decimals, k9)]
+#[kani::stub(ruint::algorithms::div::div, div_spec)]
+#[kani::unwind(5)]
+fn c28_convert_k09() {
+    convert(9, THREE, false);
+}
+
+//@ prop=C28 tier=thorough kind=hold
+//@ enc=<PriceFeedPrice as FromChainlinkReport>::from_chainlink_report, ruint U192 cmp / pow(10, 10)
+//@ bound=divisor exponent 10: ask in (u128::MAX*10^9, u128::MAX*10^10], bid/price any 192-bit values; results floor(x / 10^10) exactly; unwind 5
+//@ stubs=find_divisor_decimals constant 10 on its interval; ruint::algorithms::div::div specification; Report::verif_new hook
+//@ args=--cbmc-args,--unwindset,memcmp.0:26
+//@ timeout=1800
+#[kani::proof]
+#[kani::stub(gmsol_utils::price::find_divisor_decimals, k10)]
+#[kani::stub(ruint::algorithms::div::div, div_spec)]
+#[kani::unwind(5)]
+fn c28_convert_k10() {
+    convert(10, THREE, false);
+}
+
+//@ prop=C28 tier=thorough kind=hold
+//@ enc=<PriceFeedPrice as FromChainlinkReport>::from_chainlink_report, ruint U192 cmp / pow(10, 11)
+//@ bound=divisor exponent 11: ask in (u128::MAX*10^10, u128::MAX*10^11], bid/price any 192-bit values; results floor(x / 10^11) exactly; unwind 5
+//@ stubs=find_divisor_decimals constant 11 on its interval; ruint::algorithms::div::div specification; Report::verif_new hook
+//@ args=--cbmc-args,--unwindset,memcmp.0:26
+//@ timeout=1800
+#[kani::proof]
+#[kani::stub(gmsol_utils::price::find_divisor_decimals, k11)]
+#[kani::stub(ruint::algorithms::div::div, div_spec)]
+#[kani::unwind(5)]
+fn c28_convert_k11() {
+    convert(11, THREE, false);
+}
+
+//@ prop=C28 tier=thorough kind=hold
+//@ enc=<PriceFeedPrice as FromChainlinkReport>::from_chainlink_report, ruint U192 cmp / pow(10, 12)
+//@ bound=divisor exponent 12: ask in (u128::MAX*10^11, u128::MAX*10^12], bid/price any 192-bit values; results floor(x / 10^12) exactly; unwind 5
+//@ stubs=find_divisor_decimals constant 12 on its interval; ruint::algorithms::div::div specification; Report::verif_new hook
+//@ args=--cbmc-args,--unwindset,memcmp.0:26
+//@ timeout=1800
+#[kani::proof]
+#[kani::stub(gmsol_utils::price::find_divisor_decimals, k12)]
+#[kani::stub(ruint::algorithms::div::div, div_spec)]
+#[kani::unwind(5)]
+fn c28_convert_k12() {
+    convert(12, THREE, false);
+}
+
+//@ prop=C28 tier=thorough kind=hold
+//@ enc=<PriceFeedPrice as FromChainlinkReport>::from_chainlink_report, ruint U192 cmp / pow(10, 13)
+//@ bound=divisor exponent 13: ask in (u128::MAX*10^12, u128::MAX*10^13], bid/price any 192-bit values; results floor(x / 10^13) exactly; unwind 5
+//@ stubs=find_divisor_decimals constant 13 on its interval; ruint::algorithms::div::div specification; Report::verif_new hook
+//@ args=--cbmc-args,--unwindset,memcmp.0:26
+//@ timeout=1800
+#[kani::proof]
+#[kani::stub(gmsol_utils::price::find_divisor_decimals, k13)]
+#[kani::stub(ruint::algorithms::div::div, div_spec)]
+#[kani::unwind(5)]
+fn c28_convert_k13() {
+    convert(13, THREE, false);
+}
+
+//@ prop=C28 tier=thorough kind=hold
+//@ enc=<PriceFeedPrice as FromChainlinkReport>::from_chainlink_report, ruint U192 cmp / pow(10, 14)
+//@ bound=divisor exponent 14: ask in (u128::MAX*10^13, u128::MAX*10^14], bid/price any 192-bit values; results floor(x / 10^14) exactly; unwind 5
+//@ stubs=find_divisor_decimals constant 14 on its interval; ruint::algorithms::div::div specification; Report::verif_new hook
+//@ args=--cbmc-args,--unwindset,memcmp.0:26
+//@ timeout=1800
+#[kani::proof]
+#[kani::stub(gmsol_utils::price::find_divisor_decimals, k14)]
+#[kani::stub(ruint::algorithms::div::div, div_spec)]
+#[kani::unwind(5)]
+fn c28_convert_k14() {
+    convert(14, THREE, false);
+}
+
+//@ prop=C28 tier=thorough kind=hold
+//@ enc=<PriceFeedPrice as FromChainlinkReport>::from_chainlink_report, ruint U192 cmp / pow(10, 15)
+//@ bound=divisor exponent 15: ask in (u128::MAX*10^14, u128::MAX*10^15], bid/price any 192-bit values; results floor(x / 10^15) exactly; unwind 5
+//@ stubs=find_divisor_decimals constant 15 on its interval; ruint::algorithms::div::div specification; Report::verif_new hook
+//@ args=--cbmc-args,--unwindset,memcmp.0:26
+//@ timeout=1800
+#[kani::proof]
+#[kani::stub(gmsol_utils::price::find_divisor_decimals, k15)]
+#[kani::stub(ruint::algorithms::div::div, div_spec)]
+#[kani::unwind(5)]
+fn c28_convert_k15() {
+    convert(15, THREE, false);
+}
+
+//@ prop=C28 tier=thorough kind=hold
+//@ enc=<PriceFeedPrice as FromChainlinkReport>::from_chainlink_report, ruint U192 cmp / pow(10, 16)
+//@ bound=divisor exponent 16: ask in (u128::MAX*10^15, u128::MAX*10^16], bid/price any 192-bit values; results floor(x / 10^16) exactly; unwind 5
+//@ stubs=find_divisor_decimals constant 16 on its interval; ruint::algorithms::div::div specification; Report::verif_new hook
+//@ args=--cbmc-args,--unwindset,memcmp.0:26
+//@ timeout=1800
+#[kani::proof]
+#[kani::stub(gmsol_utils::price::find_divisor_decimals, k16)]
+#[kani::stub(ruint::algorithms::div::div, div_spec)]
+#[kani::unwind(5)]
+fn c28_convert_k16() {
+    convert(16, THREE, false);
+}
+
+//@ prop=C28 tier=thorough kind=hold
+//@ enc=<PriceFeedPrice as FromChainlinkReport>::from_chainlink_report, ruint U192 cmp / pow(10, 17)
+//@ bound=divisor exponent 17: ask in (u128::MAX*10^16, u128::MAX*10^17], bid/price any 192-bit values; results floor(x / 10^17) exactly; unwind 5
+//@ stubs=find_divisor_decimals constant 17 on its interval; ruint::algorithms::div::div specification; Report::verif_new hook
+//@ args=--cbmc-args,--unwindset,memcmp.0:26
+//@ timeout=1800
+#[kani::proof]
+#[kani::stub(gmsol_utils::price::find_divisor_decimals, k17)]
+#[kani::stub(ruint::algorithms::div::div, div_spec)]
+#[kani::unwind(5)]
+fn c28_convert_k17() {
+    convert(17, THREE, false);
 }
